@@ -18,7 +18,7 @@ RULE = ("selector specifications nested to depth 3 against a reference evaluator
 ASSUMPTIONS = [
     "predicates come from a fixed registry (total, or raising ValueError/KeyError on some values) and return bool",
     "GroupBy: pairs of contexts whose answer depends on whether interior (dictionary) key paths count as key paths are skipped and counted; contexts contain no empty dictionaries",
-    "dotted strings have no empty components",
+    "dotted strings with empty components mean what the docstring of contains says (every dot is a level of nesting, an empty component is the key '')",
 ]
 
 
@@ -76,7 +76,9 @@ PREDS = {"even": p_even, "raise_odd": p_raise_odd, "raise_str": p_raise_str,
 CLASSES = {"int": int, "str": str, "tuple": tuple, "HV": HV, "dict": dict}
 STRS = ["a", "a.b", "a.b.x", "a.b.c", "c", "c.1", "b.s", "a.b.x.y", "d.e",
         # the documented string test against a scalar that is false
-        "c.0", "a.b.None", "a.False", "d.0"]
+        "c.0", "a.b.None", "a.False", "d.0",
+        # every dot is a level of nesting (docstring of contains), also next to an empty component
+        ".a", "a..b", "a.", ".c.1", ""]
 
 # predicates on sub-contexts (SelectContext)
 SUBPREDS = {
@@ -118,6 +120,9 @@ def spec_strat(depth):
         st.builds(lambda items: {"k": "and", "items": items}, st.lists(sub, max_size=3)),
         st.builds(lambda s, r: {"k": "not", "spec": s, "roe": r}, sub, st.booleans()),
         st.builds(lambda s, r: {"k": "sel", "spec": s, "roe": r}, sub, st.booleans()),
+        # the classes And / Or themselves, with raise_on_error given or left at its default
+        st.builds(lambda kind, items, r: {"k": kind, "items": items, "roe": r}, st.sampled_from(["And", "Or"]),
+                  st.lists(sub, max_size=3), st.sampled_from([None, None, True, False])),
     )
 
 
@@ -128,6 +133,7 @@ VALUES = [
     ["p", 7, {"a": {"b": "c"}, "b": "s", "c": [1]}], ["p", ["HV"], {"d": {"e": 2}}],
     ["HV"], ["p", 2, {"a": {"b": None}}],
     ["p", 8, {"c": 0}], ["p", 9, {"a": False, "d": 0}],
+    ["p", 10, {"": {"a": 1, "c": 1}, "a": {"": {"b": 2}, "b": 3}}], ["p", 11, {"a": {"": 1}, "c": {"1": 1}}],
 ]
 
 
@@ -195,6 +201,14 @@ def build(spec):
         return Not(build(spec["spec"]), raise_on_error=spec["roe"])
     if k == "sel":
         return Selector(build(spec["spec"]), raise_on_error=spec["roe"])
+    if k in ("And", "Or"):
+        cls = And if k == "And" else Or
+        items = [build(s) for s in spec["items"]]
+        if k == "And":
+            items = tuple(items)
+        if spec["roe"] is None:
+            return cls(items)
+        return cls(items, raise_on_error=spec["roe"])
     raise AssertionError(k)
 
 
@@ -234,10 +248,14 @@ def ref_own(spec, v):
         return not _guard(lambda: ref(spec["spec"], v, r2), r2)
     if k == "sel":
         return _guard(lambda: ref(spec["spec"], v, r2), r2)
+    if k in ("And", "Or"):
+        # raise_on_error (True unless given) is for the items it converts; ready-made items keep their own
+        r2 = True if r2 is None else r2
+        return (all if k == "And" else any)(ref_item(s, v, r2) for s in spec["items"])
     raise AssertionError(k)
 
 
-READY = ("selctx", "not", "sel")
+READY = ("selctx", "not", "sel", "And", "Or")
 
 
 def ref_item(spec, v, roe):
@@ -267,7 +285,7 @@ def ref(spec, v, roe):
 
 def _depth(spec):
     k = spec["k"]
-    if k in ("or", "and"):
+    if k in ("or", "and", "And", "Or"):
         return 1 + max([_depth(s) for s in spec["items"]] or [0])
     if k in ("not", "sel"):
         return 1 + _depth(spec["spec"])
@@ -280,7 +298,7 @@ def _has_raising(spec):
         return spec["f"].startswith("raise")
     if k == "selctx":
         return spec["p"] in ("gt1", "len2")
-    if k in ("or", "and"):
+    if k in ("or", "and", "And", "Or"):
         return any(_has_raising(s) for s in spec["items"])
     if k in ("not", "sel"):
         return _has_raising(spec["spec"])
@@ -516,6 +534,7 @@ def groupby_case(draw):
     with_data = draw(st.booleans())
     return {"listed": [[list(p), k] for p, k in listed], "contexts": ctxs,
             "with_data": with_data, "shuffle_keys": draw(st.booleans()),
+            "second_round": draw(st.integers(0, 3)) > 0, "rotate": draw(st.integers(0, 7)),
             "key_order": draw(st.sampled_from(["listed", "reversed", "longest_first"]))}
 
 
@@ -547,8 +566,24 @@ def judge_groupby(case):
         group_by = tuple(sorted(group_by, key=lambda k_: (-len(k_), k_)))
         merge = tuple(sorted(merge, key=lambda k_: (-len(k_), k_)))
     gb = GroupBy(group_by=group_by, merge=merge)
+    res = _judge_round(gb, case, case["contexts"], listed, group_by, merge)
+    # a second round on the same element after reset(): it starts with the context that was filled last
+    # (and with one of each group), and is judged like the first
+    if case.get("second_round", True):
+        ctxs = case["contexts"]
+        rot = case.get("rotate", 1) % len(ctxs)
+        second = [ctxs[-1]] + ctxs[rot:] + ctxs[:rot]
+        gb.reset()
+        if len(gb.groups):
+            raise Violation("groupby-reset-keeps-groups", "%r" % (gb.groups,))
+        _judge_round(gb, case, second, listed, group_by, merge, what="after reset(): ")
+        res["classes"].append("second-round-after-reset")
+    return res
+
+
+def _judge_round(gb, case, contexts, listed, group_by, merge, what=""):
     vals = []
-    for i, c in enumerate(case["contexts"]):
+    for i, c in enumerate(contexts):
         c = copy.deepcopy(c)
         if case["shuffle_keys"] and i % 2:
             c = _reorder(c)
@@ -572,12 +607,12 @@ def judge_groupby(case):
             where[v[0]] = gi
             seen.append(v[0])
     if sorted(seen) != list(range(len(vals))):
-        raise Violation("groupby-loses-or-duplicates-values", "%r" % (seen,))
+        raise Violation("groupby-loses-or-duplicates-values", "%s%r of %d values" % (what, seen, len(vals)))
     ambiguous = 0
     decided = 0
     differing_one = False
     for i, j in itertools.combinations(range(len(vals)), 2):
-        ci, cj = case["contexts"][i], case["contexts"][j]
+        ci, cj = contexts[i], contexts[j]
         same_a = sig_atomic(ci, listed) == sig_atomic(cj, listed)
         same_b = sig_all(ci, listed) == sig_all(cj, listed)
         if same_a != same_b:
@@ -588,8 +623,8 @@ def judge_groupby(case):
         if got != same_a:
             raise Violation(
                 "groupby-partition-differs-from-reference",
-                "group_by=%r merge=%r: contexts %r and %r are %s but should be %s" % (
-                    group_by, merge, ci, cj,
+                "%sgroup_by=%r merge=%r: contexts %r and %r are %s but should be %s" % (
+                    what, group_by, merge, ci, cj,
                     "grouped together" if got else "in different groups",
                     "together" if same_a else "apart"))
         if ci != cj:
